@@ -1,6 +1,7 @@
 package main
 
 import (
+	"regexp"
 	"bufio"
 	"fmt"
 	"go/token"
@@ -31,6 +32,7 @@ type Engine struct {
 	specs      map[string]*PkgSpec
 	trusted    *PkgSpec
 	specSigs   map[string]*SpecSig
+	hintPreds  map[string]bool // spec predicates that are true of all arguments (unfold / shift / locality triggers)
 	specFiles  map[string]string
 	specDeps   map[string][]string
 	binds      map[string]string
@@ -196,6 +198,13 @@ func (e *Engine) loadSpecFiles(dir string) error {
 			return err
 		}
 		e.specFiles[name] = string(b)
+		// hint predicates: `(forall (...) (! (and (NAME v1 .. vn) ...) ...))` makes NAME true of all arguments
+		for _, m := range hintAxiomRe.FindAllStringSubmatch(string(b), -1) {
+			if e.hintPreds == nil {
+				e.hintPreds = map[string]bool{}
+			}
+			e.hintPreds[m[1]] = true
+		}
 		sc := bufio.NewScanner(strings.NewReader(string(b)))
 		sc.Buffer(make([]byte, 1<<20), 1<<22)
 		for sc.Scan() {
@@ -225,6 +234,49 @@ func (e *Engine) loadSpecFiles(dir string) error {
 	}
 	return nil
 }
+
+var hintAxiomRe = regexp.MustCompile(`\(!\s*\(and\s*\(([^\s()]+)((?:\s+[A-Za-z_][A-Za-z0-9_]*)+)\)`)
+
+// hoistHints returns the ground applications of hint predicates occurring in goal. A hint predicate holds of all
+// arguments (its axiom says so), so asserting an application is sound; it is done because a solver that tracks
+// relevancy does not instantiate the axiom for a trigger term sitting in a literal of the negated goal that it has
+// not chosen to satisfy.
+func (e *Engine) hoistHints(goal string) []string {
+	var out []string
+	seen := map[string]bool{}
+	for name := range e.hintPreds {
+		pat := "(" + name + " "
+		for from := 0; ; {
+			i := strings.Index(goal[from:], pat)
+			if i < 0 {
+				break
+			}
+			i += from
+			depth, j := 0, i
+			for ; j < len(goal); j++ {
+				if goal[j] == '(' {
+					depth++
+				} else if goal[j] == ')' {
+					depth--
+					if depth == 0 {
+						break
+					}
+				}
+			}
+			term := goal[i : j+1]
+			from = i + len(pat)
+			if boundVarRe.MatchString(term) || seen[term] {
+				continue
+			}
+			seen[term] = true
+			out = append(out, term)
+		}
+	}
+	sort.Strings(out)
+	return out
+}
+
+var boundVarRe = regexp.MustCompile(`!b[0-9]+`)
 
 func normSort(s string) string {
 	if n, ok := specSortName(s); ok {
